@@ -164,8 +164,8 @@ impl Gate {
             if st.epoch != seen {
                 seen = st.epoch;
                 since = std::time::Instant::now();
-            } else if st.turn != Some(me) && since.elapsed() > std::time::Duration::from_secs(5) {
-                // the holder has not reached a scheduling point for 5 s: it is blocked for real in
+            } else if st.turn != Some(me) && since.elapsed() > std::time::Duration::from_secs(12) {
+                // the holder has not reached a scheduling point for 12 s: it is blocked for real in
                 // something the simulator does not intercept (Condvar, channel, foreign Once).
                 // Let this caller run rather than deadlock the simulation itself.
                 st.turn = Some(me);
